@@ -155,6 +155,7 @@ __CPROVER_ensures(g_sx_live == __CPROVER_old(g_sx_live) + 2)
  * unchanged */
 static size_t skip_ws(const char *s, const size_t n, size_t i)
 __CPROVER_requires(__CPROVER_r_ok(s, n))
+SX_RUNS_REQUIRES(s, n)
 __CPROVER_assigns()
 __CPROVER_ensures(IMPLIES(i >= n, __CPROVER_return_value == i))
 __CPROVER_ensures(IMPLIES(i < n, i <= __CPROVER_return_value && __CPROVER_return_value <= n))
@@ -177,6 +178,7 @@ __CPROVER_ensures((int)__CPROVER_return_value == spec_sx_looking_at(s, n, i))
 static struct sx_node *parse_symbol(const char *s, const size_t n, size_t *i)
 __CPROVER_requires(__CPROVER_r_ok(s, n) && __CPROVER_rw_ok(i, sizeof(*i)) && *i < n)
 __CPROVER_requires(SPEC_SX_ISSYMINIT(s[*i]))
+SX_RUNS_REQUIRES(s, n)
 __CPROVER_assigns(*i, g_sx_live)
 __CPROVER_ensures(__CPROVER_old(*i) < *i && *i <= n)
 __CPROVER_ensures(IMPLIES(__CPROVER_old(*i) <= g_k && g_k < *i, SPEC_SX_ISSYMCH(s[g_k])))
@@ -229,18 +231,21 @@ static struct sx_node *parse_integer_(const char *s, const size_t n, size_t *i, 
                                       int (*digitpredicate)(int), uint64_t base)
 __CPROVER_requires(SX_INT_REQUIRES(s, n, i, offset, base))
 __CPROVER_requires(digitpredicate == ((base) == 10 ? isdigit : isxdigit))
+SX_RUNS_REQUIRES(s, n)
 __CPROVER_assigns(*i, g_sx_live)
 SX_INT_ENSURES(s, n, i, offset, base)
 ;
 
 static inline struct sx_node *parse_integer(const char *s, const size_t n, size_t *i)
 __CPROVER_requires(SX_INT_REQUIRES(s, n, i, 0, 10))
+SX_RUNS_REQUIRES(s, n)
 __CPROVER_assigns(*i, g_sx_live)
 SX_INT_ENSURES(s, n, i, 0, 10)
 ;
 
 static inline struct sx_node *parse_hinteger(const char *s, const size_t n, size_t *i)
 __CPROVER_requires(SX_INT_REQUIRES(s, n, i, 2, 16))
+SX_RUNS_REQUIRES(s, n)
 __CPROVER_assigns(*i, g_sx_live)
 SX_INT_ENSURES(s, n, i, 2, 16)
 ;
@@ -339,6 +344,7 @@ static inline bool sx_token_post_exact(const char *s, size_t n, size_t i, struct
 
 struct sx_parse_result sx_parse_token(const char *s, const size_t n, const size_t i)
 __CPROVER_requires(__CPROVER_r_ok(s, n) && i <= n)
+SX_RUNS_REQUIRES(s, n)
 __CPROVER_assigns(g_sx_live)
 __CPROVER_ensures(IMPLIES(SX_RV.node != NULL, SX_NODE_FRESH(SX_RV.node)))
 __CPROVER_ensures(sx_token_post_status(s, n, i, SX_RV))
@@ -428,6 +434,7 @@ static inline bool sx_tail_post_exact(const char *s, size_t n, size_t i, struct 
 
 static struct sx_parse_result sx_parse_(const char *s, size_t n, size_t i)
 __CPROVER_requires(__CPROVER_r_ok(s, n) && i <= n)
+SX_TABS_REQUIRES(s, n)
 __CPROVER_assigns(g_sx_live)
 __CPROVER_ensures(IMPLIES(SX_RV.node != NULL, SX_NODE_FRESH(SX_RV.node)))
 __CPROVER_ensures(sx_expr_post(s, n, i, SX_RV, false))
@@ -436,6 +443,7 @@ __CPROVER_ensures(IMPLIES(SX_GRAMMAR_OK(s, n), sx_expr_post_exact(s, n, i, SX_RV
 
 static struct sx_parse_result sx_parse_list(const char *s, size_t n, size_t i)
 __CPROVER_requires(__CPROVER_r_ok(s, n) && i <= n)
+SX_TABS_REQUIRES(s, n)
 __CPROVER_assigns(g_sx_live)
 __CPROVER_ensures(IMPLIES(SX_RV.node != NULL, SX_NODE_FRESH(SX_RV.node)))
 __CPROVER_ensures(sx_expr_post(s, n, i, SX_RV, true))
@@ -484,6 +492,7 @@ __CPROVER_ensures(*n == NULL)
 
 struct sx_parse_result sx_parse(const char *s, const size_t n, const size_t i)
 __CPROVER_requires(__CPROVER_r_ok(s, n) && i <= n)
+SX_TABS_REQUIRES(s, n)
 __CPROVER_assigns(g_sx_live)
 __CPROVER_ensures(IMPLIES(SX_RV.node != NULL, SX_NODE_FRESH(SX_RV.node)))
 __CPROVER_ensures(sx_parse_post(s, n, i, SX_RV))
@@ -492,6 +501,7 @@ __CPROVER_ensures(IMPLIES(SX_GRAMMAR_OK(s, n), sx_parse_post_exact(s, n, i, SX_R
 
 struct sx_parse_result sx_parse_stringn(const char *s, const size_t n)
 __CPROVER_requires(__CPROVER_r_ok(s, n))
+SX_TABS_REQUIRES(s, n)
 __CPROVER_assigns(g_sx_live)
 __CPROVER_ensures(IMPLIES(SX_RV.node != NULL, SX_NODE_FRESH(SX_RV.node)))
 __CPROVER_ensures(sx_parse_post(s, n, 0, SX_RV))
@@ -503,6 +513,7 @@ __CPROVER_ensures(IMPLIES(SX_GRAMMAR_OK(s, n), sx_parse_post_exact(s, n, 0, SX_R
 struct sx_parse_result sx_parse_string(const char *s)
 __CPROVER_requires(g_a <= SX_QMAX && __CPROVER_r_ok(s, g_a + 1) && s[g_a] == '\0')
 __CPROVER_requires(__CPROVER_forall { size_t k_; (k_ < SX_QMAX) ==> ((k_ < g_a) ==> s[k_] != '\0') })
+SX_TABS_REQUIRES(s, g_a)
 __CPROVER_assigns(g_sx_live)
 __CPROVER_ensures(IMPLIES(SX_RV.node != NULL, SX_NODE_FRESH(SX_RV.node)))
 __CPROVER_ensures(sx_parse_post(s, g_a, 0, SX_RV))
